@@ -1,5 +1,6 @@
 import PonyVerif.Drive.Util
 import PonyVerif.Gen.Quote
+import PonyVerif.Gen.SqlBuild
 import PonyVerif.Model.SqlText
 namespace PonyVerif.Drive.C06
 open Lean PonyVerif.Py PonyVerif.Drive PonyVerif.Model.SqlText
@@ -58,6 +59,14 @@ def jExpr : SqlExpr → Json
   | .concat2 a b => .arr #[.str "CONCAT", jExpr a, jExpr b]
   | .concat3 a b c => .arr #[.str "CONCAT", jExpr a, jExpr b, jExpr c]
 
+/-- skeleton with runs of structural characters merged into one string -/
+def jSkel (l : List Skel) : Json :=
+  let rec go (acc : Str) (out : Array Json) : List Skel → Array Json
+    | [] => if acc.isEmpty then out else out.push (jstr acc.reverse)
+    | .ch c :: r => go (c :: acc) out r
+    | .quoted q :: r => go [] ((if acc.isEmpty then out else out.push (jstr acc.reverse)).push (Json.mkObj [("q", jstr [q])])) r
+  .arr (go [] #[] l)
+
 def natList (j : Json) (k : String) : Except String (List Nat) := do
   (← argArr j k).mapM (fun x => fromJson? x)
 
@@ -101,6 +110,19 @@ def handle (j : Json) : Except String Json := do
       match scanP .text (← argChars j "text") with
       | none => pure .null
       | some t => pure (jToks t)
+  | "skeleton" =>
+      match skeleton .out (← argChars j "text") with
+      | none => pure .null
+      | some l => pure (jSkel l)
+  | "gen_build" =>
+      let a ← argArr j "args"
+      let fn ← argStr j "fn"
+      match fn, ← a.mapM pyOfJson with
+      | "mod", [x, y, st] => pure (jsonOfPyM (PonyVerif.Gen.sqlMod x y st))
+      | "like", [e, t, esc] => pure (jsonOfPyM (PonyVerif.Gen.sqlLike e t esc))
+      | "not_like", [e, t, esc] => pure (jsonOfPyM (PonyVerif.Gen.sqlNotLike e t esc))
+      | "replace", [x, y, z] => pure (jsonOfPyM (PonyVerif.Gen.sqlReplaceCall x y z))
+      | _, _ => throw "gen_build: fn/args"
   | "like" => pure (.bool (likeMatch (← argOptChar j "esc") (← argChars j "pat") (← argChars j "s")))
   | "sql_replace" => pure (jstr (sqlReplace (← argChars j "old") (← argChars j "new") (← argChars j "s")))
   | "like_ast" =>
